@@ -420,6 +420,12 @@ var nearMisses = [][2]string{
 	{"$ & $", "grammar"}, {"$ | $", "grammar"}, {"$ === 1", "grammar"}, {"$.a == 1 ||", "grammar"}, {"+", "grammar"}, {"$ +", "grammar"},
 	{"* 1", "grammar"}, {"$ to 1", "grammar"}, {"$[1 to 2 to 3]", "grammar"}, {"$[*, 1]", "grammar"}, {"$[1, *]", "grammar"}, {"$.*.", "grammar"},
 	{"TRUE", "keyword-case"}, {"$.a == TRUE", "keyword-case"}, {"$.a == Null", "keyword-case"}, {"False", "keyword-case"}, {"$.a == nULL", "keyword-case"},
+	// a reserved word is its ASCII letters in either case - not whatever Unicode
+	// case folding maps onto them (U+017F long s, U+212A Kelvin sign, U+0130 / U+0131)
+	{"\u017ftrict $.a", "keyword-letters"}, {"$.\u017fize()", "keyword-letters"}, {"$[la\u017ft]", "keyword-letters"}, {"$.**{la\u017ft}", "keyword-letters"}, {"$ ? (@ \u017ftarts with \"a\")", "keyword-letters"},
+	{"($.a == 1) i\u017f unknown", "keyword-letters"}, {"$.time\u017ftamp()", "keyword-letters"}, {"$.\\u017Fize()", "keyword-letters"}, {"$.a li\u212ae_regex \"x\"", "keyword-letters"}, {"$.\u212aeyvalue()", "keyword-letters"},
+	{"$ ? (ex\u0131sts(@.a))", "keyword-letters"}, {"($.a == 1) \u0130s unknown", "keyword-letters"}, {"$.a[0 t\u00f6 1]", "keyword-letters"}, {"$.a \u017ftarts with \"a\"", "keyword-letters"}, {"$.ab\u017f()", "keyword-letters"},
+	{"$.a like_regex \"x\" \ufb02ag \"i\"", "keyword-letters"}, {"$.\u017ftring()", "keyword-letters"}, {"$.a.\u212aeyvalue().key", "keyword-letters"}, {"la\u017f", "keyword-letters"}, {"$.a == nu\u017f", "keyword-letters"},
 }
 
 var tokenDict = []string{
